@@ -99,12 +99,12 @@ def run(chk):
 
     # ---- Linear / calc_frac / lookup guess
     W1 = [(RX, (1, 0)), ('q', (1, 0)), (RY, (0, 1))]
-    for ext, rel in ((False, 'inside'), (True, 'below')):
+    for ext, rel in ((True, 'inside'), (True, 'below')):
         o = run_linear(lib, ext, rel)
         if chk.ob('R15.1', "Linear kernel (ext=%s) extracted" % ext, o.kind == 'ok' and len(o.m.writes) == 1, '', 'linear-kernel-%s' % ext):
             judge('Linear lane value (ext=%s, q %s)' % (ext, rel), o.m.writes[0][1], W1, (0, 1), lib.body(LIN)['span'])
     # ---- Bilinear: independent units for x and y
-    for ext, rx, ry in ((False, 'inside', 'inside'), (True, 'below', 'above')):
+    for ext, rx, ry in ((True, 'inside', 'inside'), (True, 'below', 'above')):
         o = run_bilinear(lib, ext, rx, ry)
         if chk.ob('R15.1', "Bilinear kernel (ext=%s) extracted" % ext, o.kind == 'ok' and len(o.m.writes) == 1, '', 'bilinear-kernel-%s' % ext):
             r = o.m.writes[0][1]
@@ -136,7 +136,7 @@ def run(chk):
             judge('lookup guess (before truncation)', guess['mid'], [(RAx, (1, 0)), ('q', (1, 0)), ('n', (0, 0))], (0, 0), b['span'], axis_pats=(RAx,), linear=False)
     # ---- spline evaluation, coefficients
     WS = [(RX, (1, 0)), ('q', (1, 0)), (RY, (0, 1)), (RA, (0, 1)), (RK, (-1, 1)), (RK2, (0, 0)), ('v_l', None), ('v_r', None)]
-    o = run_spline(lib, 'No', 'inside')
+    o = run_spline(lib, 'Yes', 'inside')
     if chk.ob('R15.1', "spline evaluation kernel extracted", o.kind == 'ok' and len(o.m.writes) == 1, '', 'spline-kernel'):
         judge('spline piece value', o.m.writes[0][1], WS, (0, 1), lib.body(SPL)['span'])
     for rel in ('below', 'above'):
